@@ -266,7 +266,7 @@ def run_config(rt, drv, N, budget, initial, K, tmo, deadline, qjobs=1):
 CONFIGS = {
     # (workers, budget of children, initial items in the injector, K)
     # first entry = core configuration: must be decided completely (incl. "no execution is longer than K")
-    "quick": [(2, 1, 1, 62), (2, 2, 1, 56)],
+    "quick": [(2, 1, 1, 62), (2, 2, 1, 44)],
     "thorough": [(2, 1, 1, 62), (2, 2, 1, 95), (2, 3, 1, 110), (3, 1, 1, 85), (3, 2, 1, 100)],
 }
 
